@@ -24,6 +24,10 @@
 //! sides (the native `expressions()` rewrite of lead/lag is applied to none).
 //!
 //! Non-trivial: a native call returned at least one non-NULL value that was compared with F.
+//!
+//! Sensitivity probes (probes/probes.diff via tools/mutrun, quick tier):
+//!  p9  FFI_PartitionEvaluatorArgs drops ignore_nulls        → VIOLATION "first_value(Bool) IGNORE NULLS: evaluate(row 11, range 10..14): native false .. foreign NULL"
+//!  p10 FFI_Range → Range conversion shortens the end by one → VIOLATION "cume_dist(): evaluate_all: native [..] foreign [..]"
 use crate::vals::*;
 use crate::{FOREIGN_MARKER_NOTE, harness_marker};
 use arrow::array::{Array, ArrayRef, Int64Array};
